@@ -78,7 +78,7 @@ def gen(tape: Tape, tier: str) -> dict:
         max_groups=4,
         max_ndim=2,
         by_dask_p=0.0,
-        expected_modes=("none", "none", "exact", "superset") if kind not in "mM" else ("none",),
+        expected_modes=("none", "none", "exact", "superset", "disjoint") if kind not in "mM" else ("none",),
         missing_label_p=0.1,
         value_alphabet=alphabet,
         patterns=["random", "periodic", "sorted", "runs"],
